@@ -215,6 +215,13 @@ class BindContextBase:
         """Return True if is currently participating in a binding process."""
         return not isinstance(self.state, _IS_NOT_BINDING_STATES)
 
+    def _abandon_binding(self) -> None:
+        """End the current attempt without its State having reached an outcome."""
+
+        if handle := getattr(self._state, "_timer_handle", None):
+            handle.cancel()  # else it would fail whatever attempt is current by then
+        self.set_state(DevHasFailedBinding)
+
     async def _send_bind_cmd(self, cmd: Command) -> Packet:
         """Send a binding Command and return its own Packet."""
 
@@ -279,8 +286,11 @@ class BindContextRespondent(BindContextBase):
         except exc.BindingError:
             raise
         except exc.RamsesException as err:  # e.g. a send failed: is no longer binding
-            self.set_state(DevHasFailedBinding)
+            self._abandon_binding()
             raise exc.BindingFlowFailed(f"{self}: binding failed: {err}") from err
+        except asyncio.CancelledError:  # the caller gave up: is no longer binding
+            self._abandon_binding()
+            raise
 
         # self._set_as_bound(tender, accept, affirm, ratify)
         return tender._pkt, accept, affirm._pkt, (ratify._pkt if ratify else None)
@@ -361,8 +371,11 @@ class BindContextSupplicant(BindContextBase):
         except exc.BindingError:
             raise
         except exc.RamsesException as err:  # e.g. a send failed: is no longer binding
-            self.set_state(DevHasFailedBinding)
+            self._abandon_binding()
             raise exc.BindingFlowFailed(f"{self}: binding failed: {err}") from err
+        except asyncio.CancelledError:  # the caller gave up: is no longer binding
+            self._abandon_binding()
+            raise
 
         # self._set_as_bound(tender, accept, affirm, ratify)
         return tender, accept._pkt, affirm, ratify
